@@ -199,6 +199,11 @@ pub fn exec(ops: &[TOp]) -> ExecResult {
     let b = GrafeoDB::with_config(DbConfig::in_memory().without_factorized_execution()).expect("in-memory db");
     let sa = [a.session(), a.session()];
     let sb = b.session();
+    // twin C: never an index, flat execution (the configuration switch is only honoured by
+    // `execute`, not by `execute_with_params`, so B above is factorized whatever its
+    // configuration says); it goes through the plan cache, which the A-vs-B comparison isolates
+    let c = GrafeoDB::with_config(DbConfig::in_memory().without_factorized_execution()).expect("in-memory db");
+    let sc = c.session();
     let mut m = Model::default();
     let (mut ns, mut es): (Vec<u64>, Vec<u64>) = (Vec::new(), Vec::new());
     let mut findings: Vec<(String, String)> = Vec::new();
@@ -224,7 +229,8 @@ pub fn exec(ops: &[TOp]) -> ExecResult {
                     n.m = Some(*mm);
                 }
                 let ia = a.create_node_with_props(&[label], props.clone()).as_u64();
-                let ib = b.create_node_with_props(&[label], props).as_u64();
+                let ib = b.create_node_with_props(&[label], props.clone()).as_u64();
+                let _ = c.create_node_with_props(&[label], props);
                 if ia != ib {
                     findings.push(("C10 | harness | ids-diverged".into(), format!("{ia} vs {ib}")));
                     break;
@@ -239,6 +245,7 @@ pub fn exec(ops: &[TOp]) -> ExecResult {
                         let key = KEYS[*k as usize % 2];
                         a.set_node_property(NodeId::new(id), key, Value::Int64(*v));
                         b.set_node_property(NodeId::new(id), key, Value::Int64(*v));
+                        c.set_node_property(NodeId::new(id), key, Value::Int64(*v));
                         if k % 2 == 0 {
                             n.k = Some(*v);
                         } else {
@@ -253,7 +260,8 @@ pub fn exec(ops: &[TOp]) -> ExecResult {
                     if let Some(n) = m.nodes.get_mut(&id) {
                         let val = Value::String(STRS[*v as usize % 4].into());
                         a.set_node_property(NodeId::new(id), "s", val.clone());
-                        b.set_node_property(NodeId::new(id), "s", val);
+                        b.set_node_property(NodeId::new(id), "s", val.clone());
+                        c.set_node_property(NodeId::new(id), "s", val);
                         n.s = Some(*v % 4);
                         data_version += 1;
                     }
@@ -265,6 +273,7 @@ pub fn exec(ops: &[TOp]) -> ExecResult {
                         let key = KEYS[*k as usize % 2];
                         a.remove_node_property(NodeId::new(id), key);
                         b.remove_node_property(NodeId::new(id), key);
+                        c.remove_node_property(NodeId::new(id), key);
                         if k % 2 == 0 {
                             n.k = None;
                         } else {
@@ -279,6 +288,7 @@ pub fn exec(ops: &[TOp]) -> ExecResult {
                     if m.nodes.contains_key(&id) && !m.edges.values().any(|e| e.0 == id || e.1 == id) {
                         a.delete_node(NodeId::new(id));
                         b.delete_node(NodeId::new(id));
+                        c.delete_node(NodeId::new(id));
                         m.nodes.remove(&id);
                         data_version += 1;
                     }
@@ -289,6 +299,7 @@ pub fn exec(ops: &[TOp]) -> ExecResult {
                     if m.nodes.contains_key(&s) && m.nodes.contains_key(&d) {
                         let ia = a.create_edge_with_props(NodeId::new(s), NodeId::new(d), "R", [("k", Value::Int64(*k))]).as_u64();
                         let ib = b.create_edge_with_props(NodeId::new(s), NodeId::new(d), "R", [("k", Value::Int64(*k))]).as_u64();
+                        let _ = c.create_edge_with_props(NodeId::new(s), NodeId::new(d), "R", [("k", Value::Int64(*k))]);
                         if ia != ib {
                             findings.push(("C10 | harness | ids-diverged".into(), format!("{ia} vs {ib}")));
                             break;
@@ -304,6 +315,7 @@ pub fn exec(ops: &[TOp]) -> ExecResult {
                     if m.edges.remove(&id).is_some() {
                         a.delete_edge(EdgeId::new(id));
                         b.delete_edge(EdgeId::new(id));
+                        c.delete_edge(EdgeId::new(id));
                         data_version += 1;
                     }
                 }
@@ -329,9 +341,21 @@ pub fn exec(ops: &[TOp]) -> ExecResult {
                 };
                 let rb = guarded(|| rows(sb.execute_with_params(&t, HashMap::new()))).unwrap_or_else(|p| vec![format!("panic:{p}")]);
                 queries += 1;
+                if std::env::var("VERIF_DEV_TWIN").is_ok() {
+                    eprintln!("TWIN `{t}`: A {ra:?} B {rb:?}");
+                }
                 // was a plan for this (whitespace-normalised) text cached before the data changed?
                 let norm: String = t.split_whitespace().collect::<Vec<_>>().join(" ");
                 let warm = seen_texts.get(&norm).copied();
+                let rc = guarded(|| rows(sc.execute(&t))).unwrap_or_else(|p| vec![format!("panic:{p}")]);
+                if ra != rc && ra == rb {
+                    // equal to the cache-free twin, different from the flat one
+                    let class = if ra.len() < rc.len() { "rows-missing-in-factorized-run" } else if ra.len() > rc.len() { "rows-added-in-factorized-run" } else { "rows-differ" };
+                    let sig = format!("C10 | template={} | factorized-vs-flat | {class}", qname(q));
+                    if !findings.iter().any(|(s0, _)| *s0 == sig) {
+                        findings.push((sig, format!("step {i}: `{t}`: factorized {ra:?} vs flat {rc:?}")));
+                    }
+                }
                 if let Some(v) = warm {
                     *probes.entry("plan_cache_hit").or_insert(0) += 1;
                     if v != data_version {
@@ -399,6 +423,7 @@ pub fn generate(rng: &mut Prng, thorough: bool) -> Vec<TOp> {
     // a small pool of query texts that are executed repeatedly (cache warm) between changes
     let pool: Vec<Q> = (0..rng.range(2, 5)).map(|_| gen_q(rng)).collect();
     let (mut nn, mut ne) = (0usize, 0usize);
+    let mut pairs: Vec<(usize, usize)> = Vec::new();
     let mut ops = Vec::new();
     while ops.len() < len {
         let op = match rng.below(24) {
@@ -412,7 +437,19 @@ pub fn generate(rng: &mut Prng, thorough: bool) -> Vec<TOp> {
             8 if nn > 0 => TOp::DeleteNode(rng.usize(nn)),
             9 | 10 if nn > 0 => {
                 ne += 1;
-                TOp::CreateEdge(rng.usize(nn), rng.usize(nn), rng.below(5) as i64)
+                // multigraph shapes on purpose: a third of the edges repeat the endpoints of an
+                // earlier edge (parallel edges), some continue an earlier edge (paths), some loop
+                let (x, y) = match (rng.below(6), pairs.is_empty()) {
+                    (0 | 1, false) => *rng.pick(&pairs),
+                    (2, false) => (rng.pick(&pairs).1, rng.usize(nn)),
+                    (3, _) => {
+                        let x = rng.usize(nn);
+                        (x, x)
+                    }
+                    _ => (rng.usize(nn), rng.usize(nn)),
+                };
+                pairs.push((x, y));
+                TOp::CreateEdge(x, y, rng.below(5) as i64)
             }
             11 if ne > 0 => TOp::DeleteEdge(rng.usize(ne)),
             12 | 13 => TOp::CreateIndex(rng.below(3) as u8),
